@@ -87,6 +87,25 @@ func runC16(c *Ctx) {
 				continue
 			}
 		}
+		if name == "StaticCall" && snap == nil && rev == nil && runCall != nil && len(mutators) == 1 {
+			// a read-only frame that changes nothing itself has nothing to undo: beneath it every writing opcode is
+			// refused (F2) and a zero-value call creates no account (F10). It still burns the gas of a failed frame.
+			c.Pass(fname(fn)+"#frame", fn.Pos(), "no snapshot and no revert in the read-only frame: nothing in it or beneath it changes state (F2, F10)")
+			burn := false
+			for _, u := range useGas {
+				if f, _ := loadedField(stripConv(callArgs(u)[0])); f == nil || f.Name() != "Gas" {
+					continue
+				}
+				for _, a := range atomsOf(factsAtInstr(u.(ssa.Instruction))) {
+					if a.Kind == "isnil" && !a.Truth && isErrorType(a.X.Type()) {
+						burn = true
+					}
+				}
+			}
+			c.sites++
+			c.Check(fname(fn)+"#burns-gas-unless-revert", fn.Pos(), burn, ifelse(burn, "UseGas(contract.Gas) under err != nil", "a failed read-only frame does not burn its gas"))
+			continue
+		}
 		if snap == nil || rev == nil || runCall == nil {
 			c.Fail(fname(fn)+"#frame", fn.Pos(), fmt.Sprintf("frame discipline anchors missing (Snapshot=%v RevertToSnapshot=%v run=%v)", snap != nil, rev != nil, runCall != nil))
 			continue
@@ -585,6 +604,154 @@ func runC16(c *Ctx) {
 		}
 		if nLog == 0 {
 			c.Undecided("core/vm#log-data", token.NoPos, "no store into types.Log.Data found in core/vm")
+		}
+	}
+
+	// ------------------------------------------------------------ F9
+	c.Rule("C16.F9", "GATE", "nothing of a dead account is carried over: CreateAccount copies the previous object's balance into the new account only if that object is live — every way createObject hands a non-nil previous object to its caller has established prev.deleted == false (a deleted object is kept only as the journal's pre-image), or CreateAccount tests it itself. A contract that self-destructs and is then sent value in the same transaction holds that value when it is removed; a later transaction of the same block that touches the address would otherwise resurrect the burnt amount")
+	c.Min(1)
+	{
+		co := w.Fn(statePkg, "StateDB", "createObject")
+		ca := w.Fn(statePkg, "StateDB", "CreateAccount")
+		c.sawFunc(fname(ca))
+		deletedF := w.Field(statePkg, "stateObject", "deleted")
+		liveAtom := func(atoms []Atom) bool {
+			for _, a := range atoms {
+				if a.Kind == "true" && !a.Truth {
+					if f, _ := loadedField(stripConv(a.X)); f == deletedF {
+						return true
+					}
+				}
+			}
+			return false
+		}
+		// carry-over sites in CreateAccount: setBalance / SetBalance of a value loaded from the previous object
+		var coCall ssa.CallInstruction
+		for _, ci := range callsTo(ca, co.Object().(*types.Func)) {
+			coCall = ci
+		}
+		nCarry := 0
+		for _, ci := range callInstrs(ca) {
+			o := calleeObj(ci)
+			if o == nil || !(o.Name() == "setBalance" || o.Name() == "SetBalance" || o.Name() == "AddBalance") || coCall == nil {
+				continue
+			}
+			fromPrev := false
+			for _, a := range callArgs(ci) {
+				if derivesFrom(a, func(v ssa.Value) bool {
+					ex, ok := v.(*ssa.Extract)
+					return ok && ex.Tuple == coCall.Value() && ex.Index == 1
+				}) {
+					fromPrev = true
+				}
+			}
+			if !fromPrev {
+				continue
+			}
+			nCarry++
+			c.sites++
+			ok := liveAtom(atomsOf(factsAtInstr(ci.(ssa.Instruction))))
+			if !ok {
+				// or createObject never returns a deleted previous object
+				ok = true
+				n := 0
+				for _, rp := range returnPaths(co, 1) {
+					if rp.Kind == RetNil {
+						continue
+					}
+					n++
+					if !liveAtom(rp.Atoms()) {
+						ok = false
+					}
+				}
+				if n == 0 {
+					ok = true
+				}
+			}
+			c.Check(fmt.Sprintf("%s#carries-over-only-from-a-live-object-%d", fname(ca), nCarry), ci.Pos(), ok, ifelse(ok, "the previous object reaches the carry-over only with deleted == false", "CreateAccount copies the balance of a previous object that may be a deleted one (self-destructed or emptied earlier in the block and kept as the journal's pre-image): value the dead account received after its death — burnt when it was removed — re-appears in the new account, and the result of a transaction depends on where the block boundary falls"))
+		}
+		if nCarry == 0 {
+			c.Undecided(fname(ca)+"#carries-over-only-from-a-live-object", ca.Pos(), "no carry-over of the previous object's balance found in CreateAccount")
+		}
+	}
+
+	// ------------------------------------------------------------ F10
+	c.Rule("C16.F10", "GATE", "a call that moves no value to an account that does not exist changes nothing — also beneath a STATICCALL, where CALL with zero value is allowed exactly for that reason: in EVM.Call the creation of the target account (CreateAccount) is reached only on paths that established a non-zero value or a precompiled target. Otherwise code running under STATICCALL creates an account and the caller observes it (EXTCODEHASH of the target changes from 0 to the empty-code hash) although the static frame succeeded, so no revert removes it")
+	c.Min(1)
+	{
+		call := w.Fn("core/vm", "EVM", "Call")
+		var valueP *ssa.Parameter
+		for _, prm := range call.Params {
+			if isBigIntPtr(prm.Type()) {
+				valueP = prm
+			}
+		}
+		nCA := 0
+		for _, ci := range callInstrs(call) {
+			o := calleeObj(ci)
+			if o == nil || o.Name() != "CreateAccount" {
+				continue
+			}
+			nCA++
+			nPaths, bad := 0, 0
+			okEnum := pathsBetween(call, call.Blocks[0], ci.Block(), 20000, func(blocks []*ssa.BasicBlock, facts []Fact) {
+				atoms := atomsOf(facts)
+				if contradictoryAtoms(atoms) {
+					return
+				}
+				nPaths++
+				ok := false
+				for _, a := range atoms {
+					switch a.Kind {
+					case "eq", "cmp":
+						// value.Sign() compared with 0 and decided non-zero
+						for _, pair := range [][2]ssa.Value{{a.X, a.Y}, {a.Y, a.X}} {
+							cc, isCall := stripConv(pair[0]).(*ssa.Call)
+							if !isCall || pair[1] == nil || calleeObj(cc) == nil || calleeObj(cc).Name() != "Sign" || valueP == nil || stripConv(callRecv(cc)) != ssa.Value(valueP) {
+								continue
+							}
+							if n, isC := constInt(pair[1]); isC && n == 0 {
+								if (a.Kind == "eq" && !a.Truth) || (a.Kind == "cmp" && a.Truth && (a.Op == token.GTR || a.Op == token.LSS)) || (a.Kind == "cmp" && !a.Truth && (a.Op == token.LEQ || a.Op == token.GEQ)) {
+									ok = true
+								}
+							}
+						}
+					case "isnil":
+						// a precompile was found for the address
+						if !a.Truth {
+							if _, isLk := stripConv(a.X).(*ssa.Lookup); isLk {
+								ok = true
+							}
+							if ex, isEx := stripConv(a.X).(*ssa.Extract); isEx {
+								if _, isLk := ex.Tuple.(*ssa.Lookup); isLk {
+									ok = true
+								}
+							}
+						}
+					case "true":
+						if a.Truth {
+							if ex, isEx := stripConv(a.X).(*ssa.Extract); isEx && ex.Index == 1 {
+								if _, isLk := ex.Tuple.(*ssa.Lookup); isLk {
+									ok = true
+								}
+							}
+						}
+					}
+				}
+				if !ok {
+					bad++
+				}
+			})
+			c.sites += nPaths
+			cons := fmt.Sprintf("%s#target-created-only-for-value-or-precompile-%d", fname(call), nCA)
+			if !okEnum {
+				c.Undecided(cons, ci.Pos(), "paths to CreateAccount could not be enumerated")
+				continue
+			}
+			c.Check(cons, ci.Pos(), bad == 0 && nPaths > 0, ifelse(bad == 0 && nPaths > 0, fmt.Sprintf("all %d paths to the creation have a non-zero value or a precompiled target", nPaths), fmt.Sprintf("%d of %d paths create the target account of a call that transfers nothing: a zero-value CALL beneath a STATICCALL changes the set of existing accounts and the calling contract observes it", bad, nPaths)))
+		}
+		if nCA == 0 {
+			c.Pass(fname(call)+"#target-created-only-for-value-or-precompile", call.Pos(), "EVM.Call does not create accounts itself")
 		}
 	}
 
